@@ -830,7 +830,8 @@ class PathExplorer:
         self.max_states = max_states
         self.states = defaultdict(set)   # block -> set of (facts, env)
         self.truncated = False
-        self.track = set(track or [])
+        self.track_all = track == 'all'
+        self.track = set() if self.track_all else set(track or [])
         self._find_tracked()
 
     def _find_tracked(self):
@@ -854,6 +855,17 @@ class PathExplorer:
                     if v[0] == 'var':
                         used.add(v[2])
         self.tracked = (multi & used) | (self.track & multi)
+        if self.track_all:
+            # reaching definitions for every named local and every local with several definitions: the tree of a
+            # definition is taken with the definitions that reach *it* substituted in (no values are computed)
+            allv = set()
+            for l, ds in fn.defs.items():
+                real = [d for d in ds if d['kind'] in ('assign', 'call')]
+                if not real:
+                    continue
+                if fn.local_name(l) is not None or len(real) > 1:
+                    allv.add(l)
+            self.tracked = allv
 
     def run(self, start=0):
         fn = self.fn
@@ -873,6 +885,17 @@ class PathExplorer:
                     work.append((s, st2))
         return self
 
+    def env_at_term(self, b, env):
+        """states are recorded at block entry: the definitions reaching the block's terminator"""
+        fn = self.fn
+        envd = dict(env)
+        for s in fn.blocks[b]['s']:
+            if s['k'] == 'assign' and not s['lhs'].get('p'):
+                nm = s['lhs']['l']
+                if nm in self.tracked and not (self.track_all and is_log_term(s)):
+                    envd[nm] = subst(fn.rvalue_tree(s['rv']), envd)
+        return envd
+
     def step(self, b, st):
         fn = self.fn
         facts, env = st
@@ -882,14 +905,14 @@ class PathExplorer:
         for s in blk['s']:
             if s['k'] == 'assign' and not s['lhs'].get('p'):
                 nm = s['lhs']['l']
-                if nm in self.tracked:
+                if nm in self.tracked and not (self.track_all and is_log_term(s)):
                     envd[nm] = subst(fn.rvalue_tree(s['rv']), envd)
                     changed = True
         t = blk['t']
         k = t['k']
         if k == 'call' and not t['dest'].get('p'):
             nm = t['dest']['l']
-            if nm in self.tracked:
+            if nm in self.tracked and not (self.track_all and is_log_term(t)):
                 envd[nm] = subst(fn.call_tree(t), envd)
                 changed = True
         env2 = frozenset(envd.items()) if changed else env
